@@ -52,7 +52,7 @@ def strat_blocks(tier):
     sh=st.sampled_from(["lt", "lt", "gt", "gt", "eq", "none"]).flatmap(sizehop),
     pad=_pad,
     route=st.sampled_from(["iter", "list", "stream", "stream_method", "gen", "kw_default_pad",
-                           "stream_method_then_changed", "tuple", "deque"]),
+                           "stream_method_then_changed", "tuple", "deque", "positional", "stream_positional"]),
   ))
 
 
@@ -69,6 +69,10 @@ def _call(case):
     return blocks(Stream(xs), size=size, padval=pad, **kw), pad
   if route == "stream_method":
     return Stream(xs).blocks(size=size, padval=pad, **kw), pad
+  if route == "positional":          # size, hop and the pad value all by position
+    return blocks(iter(xs), size, size if hop is None else hop, pad), pad
+  if route == "stream_positional":
+    return Stream(xs).blocks(size, size if hop is None else hop, pad), pad
   if route == "tuple":
     return blocks(tuple(xs), size=size, padval=pad, **kw), pad
   if route == "deque":
